@@ -22,6 +22,8 @@ type Profile struct {
 	// edits address every cursor position inside a block, element boundaries included.
 	// Whether a generated range stays inside one parent is for the reference model to say.
 	TreeMixed bool
+	// StyleBias: 0..100, extra probability that a tree edit is a style / remove-style call
+	StyleBias int
 }
 
 // DefaultProfile is the C01 mix.
@@ -437,6 +439,9 @@ func (p Profile) nextTree(r *rand.Rand, c Cont, del bool) Edit {
 	}
 	if len(blocks) > 6 {
 		k = 6
+	}
+	if p.StyleBias > 0 && !p.NoStyle && r.Intn(100) < p.StyleBias {
+		k = 9
 	}
 	b := blocks[r.Intn(len(blocks))]
 	if p.TreeMixed && len(c.Parents) > 0 && r.Intn(100) < 65 {
